@@ -17,6 +17,10 @@ CONSTANTS
   LockTypes = {}
   TickSet = {2}
   PreClients = {}
+  GateOpen = "none"
+  FirstSeqs <- FirstOne
+  LaxSet = {"cache"}
+  RejSet = {""}
   AnonOps = {}
   MaxLSeq = 0
   MaxConf = 2
@@ -39,6 +43,7 @@ PROPERTIES
   Act_C19_Same
   Act_C19_Misordered
   Act_C19_FalseRetry
+  Act_C19_LaxRetry
   Act_C18_StateIds
   Act_C20_Replies
 VIEW StateView
